@@ -24,6 +24,7 @@ pub fn oracle(sc: &Scenario, obs: &mut Obs) -> CaseResult {
     obs.class_if(s.spurious > 0, "spurious-loss-later-acked");
     obs.class_if(s.discard_with_outstanding > 0, "space-discard-with-outstanding");
     obs.class_if(s.multi_path, "multi-path");
+    obs.class_if(s.retries > 0, "retry-accepted");
     obs.class_if(s.pto_doubling_checked > 0, "pto-doubling-checked");
     obs.nontrivial(s.lost_by_packet_threshold > 0 && s.lost_by_time_threshold > 0 && s.pto_expiries > 0);
     obs.sample = Some(serde_json::json!({
@@ -51,7 +52,7 @@ pub fn subs() -> Vec<Box<dyn SubCheck>> {
     vec![Box::new(PropCheck::<Scenario, _> {
         name: "recovery_e2e",
         cases: |t| t.pick(1_500, 100_000),
-        strategy: |_t: Tier| gen::scenario(CFG),
+        strategy: |_t: Tier| gen::with_retry(gen::scenario(CFG)),
         oracle,
         max_shrink_iters: 400,
     })]
